@@ -73,7 +73,7 @@ def gen_env(r):
             "tmpname": "".join(r.pick("abcdefghijklmnopqrstuvwxyzABCDEFGHIJKLMNOPQRSTUVWXYZ0123456789") for _ in range(6)),
             "stack": r.pick([r.range(0, 4000), r.range(0, 120000), r.range(60000, 250000)]),   # bytes of environment: moves the stack by up to 250 KB
             "stdin": [r.pick(["pipe", "file", "file"]), r.pick([0, 0, 1, 17, 4096, 70000])],
-            "proc": [r.below(2), r.pick([0o022, 0o077, 0, 0o777])],   # SIGPIPE inherited as ignored; umask
+            "proc": [r.pick([0, 0, 1, 1, 2, 4, 8, 15]), r.pick([0o022, 0o077, 0, 0o777])],   # signals inherited as ignored (1 PIPE, 2 INT, 4 HUP, 8 TERM: nohup-style launchers); umask
             # where the kernel puts things (ASLR stays off, so every layout is reproducible): the default top-down layout, the legacy
             # bottom-up one (setarch -L), or the default with another stack limit, which moves the base of every mapping -- shared
             # libraries and the simulated heap with it
@@ -478,6 +478,29 @@ def gen_abi_file(r):
     return "\n".join(out) + "\n"
 
 
+def gen_feature_file(r):
+    """valid programs made of constructs ordinary test inputs rarely combine: statement expressions, case ranges, computed goto,
+    packed / aligned layouts, _Generic, flexible array members and designated ranges with initializers, wide strings, typeof,
+    file-scope compound literals, anonymous unions, enums with negative and huge values, literal suffixes, thread-local objects,
+    VLAs, alloca, bit-fields, long strings, long double chains, hundreds of cases, deep nesting, function-pointer arrays ...
+    Each one reaches code in the compiler that little else reaches; three to eight per file, with varying constants."""
+    from featsnips import SNIPS
+    picks = [r.pick(SNIPS) for _ in range(r.range(3, 8))]
+    fs_all, body_all = [], []
+    for k, (name, fs, body) in enumerate(picks):
+        n = r.pick([3, 17, 150, 300])
+        sub = dict(k=k, a=r.range(1, 9), b=r.range(1, 40), S="x" * r.pick([10, 300, 5000]) + "\\n\\\"q",
+                   CASES=" ".join("case %d: return %d;" % (i * 3, i) for i in range(n)),
+                   PARENS="(" * r.pick([5, 60, 200]) + "1" + "+1)" * 0, BLOCKS="")
+        d = r.pick([5, 60, 200])
+        sub["PARENS"] = "(" * d + "1" + "+1)" * d
+        d = r.pick([3, 40, 120])
+        sub["BLOCKS"] = "{" * d + " sink += 1; " + "}" * d
+        fs_all.append(fs.format(**sub))
+        body_all.append(body.format(**sub))
+    return "long sink;\n%s\nint main(void) { %s return (int)sink; }\n" % ("\n".join(fs_all), "\n  ".join(body_all))
+
+
 PREDEF_CACHE = {}
 
 
@@ -530,10 +553,13 @@ OPTION_SETS = [["-S", "-o-stdout"], ["-S", "-o-stdout", "-fPIC"], ["-E", "-o-std
 
 def gen_case(seed, src, own, tests, avail=None):
     r = Rng(seed)
-    x = r.below(37)
+    x = r.below(39)
     gen_text = None
     aux = None
-    if x >= 36:
+    if x >= 37:
+        path, mutated = tests[0], False
+        gen_text = gen_feature_file(r)
+    elif x >= 36:
         path, mutated = tests[0], False
         gen_text = gen_predef_file(r, src)
     elif x >= 34:
@@ -663,7 +689,9 @@ def _child_setup(e, bigstack, stdin_used=False, runs_tools=False):
         pr = e.get("proc") or [0, 0o022]
         if pr[0]:
             import signal
-            signal.signal(signal.SIGPIPE, signal.SIG_IGN)
+            for bit, sg in ((1, signal.SIGPIPE), (2, signal.SIGINT), (4, signal.SIGHUP), (8, signal.SIGTERM)):
+                if pr[0] & bit:
+                    signal.signal(sg, signal.SIG_IGN)
         os.umask(pr[1])
     return f
 
